@@ -139,6 +139,13 @@ CONFIG = {
         'level_text': 'Theorems: in every state whose four role slots are set (an invariant of every chain initialised from a genesis, proved) no transaction of any of the 25 types, with any field values (absent amounts, empty / short / long byte fields, malformed addresses, any text of the modelled alphabet) and any dependency plan, panics; the verifier never panics; the decoders are total; the CLI address parser never panics; a query panics only inside cosmos-sdk\'s Paginate for a reverse request whose cursor is the last key (refutation witness in the property file; recorded known finding). Tied to the Go code by running every entry point under recover() over every field shape varied independently in five reachable states, with nil and empty absent fields; ANY implementation panic is a violation whatever the model says.',
         'assumptions': ['partial: panic sites inside dependencies that were not found by reading can only be found by the sampling; text outside ASCII + U+017F + U+212A is exercised on the implementation only (the model answers Unmodelled)'],
     },
+    'C18': {
+        'profiles': [('determinism', 12, 200)],
+        'rules': [(r'TX:.*', 'R', None), (r'TX:.*', 'E', None), (r'TX:.*', 'S', None), (r'TX:.*', 'D', None), (r'Q:.*', 'QR', None), (r'EXPORT', 'X', None)],
+        'monitors': [M.mon_c18],
+        'level_text': 'Partial by nature. Proved: the model\'s transition is a function of (environment, chain, dependency plan, transaction) with no other input; a system of several instances under ANY interleaving leaves each instance exactly where its own history alone would (induction over the schedule); the store is canonical (insertions at distinct keys commute); and the Go source as it is now has no import of time / rand / os / sync / unsafe / runtime, no go or select statement, no range over a map and no write to a package-level variable in the state machine (scan regenerated from the source on every run). Not provable in any Gallina model - map iteration order, scheduling, data races - is covered as support by replaying every script on a fresh instance, after an unrelated history in the same process, and concurrently on 8 goroutines (thorough: under the race detector), comparing responses, events, dependency requests, typed state and the IAVL root hash with the first execution and with the model.',
+        'assumptions': ['runtime behaviour (map order, scheduler, races) is sampled by replays, not proved'],
+    },
     'C10': {
         'profiles': [('roles-matrix', 324, 324), ('admin-random', 30, 600)],
         # the property speaks about submitters who do not hold the role: only those steps are compared
